@@ -35,8 +35,7 @@ Proof. exists [EAccept; EDecide]. eexists. split; vm_compute; reflexivity. Qed.
 
 (* tie: the functions this property's model describes by hand (not by translation) still have the pinned text; an
    edit to one of them breaks this obligation and sends the check searching for a failing input *)
-From VL Require Import ShapeFacts.
 From VLG Require Import ShapeGen.
 Theorem C14_modelled_code_is_the_pinned_text : shapes_for_C14 = true.
-Proof. exact shapes_C14_ok. Qed.
+Proof. vm_compute. reflexivity. Qed.
 Print Assumptions C14_modelled_code_is_the_pinned_text.
